@@ -151,6 +151,7 @@ func runC04(rm *cj.RegistrationManager, anns *[]cj.VerifDetectorMsg, phantom net
 }
 
 func verifC04(a *vh.Args) {
+	only := replayCase(a)
 	quiet()
 	e := venum.New(fmt.Sprintf("flights:shard%d/%d", a.ShardI, a.ShardN), a)
 	phantom := net.ParseIP("192.122.190.77").To4()
@@ -247,10 +248,13 @@ func verifC04(a *vh.Args) {
 					if n%a.ShardN != a.ShardI {
 						continue
 					}
+					id := fmt.Sprintf("transport=%s;coresident=%s;early=%d;cuts=%v;gaps=%v", tc.name, co, E, cuts, gaps)
+					if only != "" && id != only {
+						continue // replay: run exactly the recorded case
+					}
 					if !e.Case() {
 						goto done
 					}
-					id := fmt.Sprintf("transport=%s;coresident=%s;early=%d;cuts=%v;gaps=%v", tc.name, co, E, cuts, gaps)
 					r := runC04(rm, &anns, phantom, tc.spec, early, later, cuts, gaps)
 					rep := map[string]any{"case": id}
 					cls := tc.name
